@@ -554,6 +554,45 @@ class FunTr:
             if not self.raises:
                 raise TranslationError('raise in a function translated as total')
             return 'None'
+        if isinstance(s, ast.If) and getattr(self, 'merge_ifs', False) and not s.orelse and \
+                all(isinstance(b, (ast.Assign, ast.AugAssign)) for b in s.body):
+            # `if c: x = e` without else: bind x := if c then e else x (no duplication of the continuation)
+            c = self.tb(self.expr(s.test, env))
+            benv = dict(env)
+            changed = []
+            for b in s.body:
+                if isinstance(b, ast.Assign) and len(b.targets) == 1:
+                    tgt = ast.unparse(b.targets[0])
+                    v = self.expr(b.value, benv)
+                elif isinstance(b, ast.AugAssign):
+                    tgt = ast.unparse(b.target)
+                    cur = self.expr(b.target, benv)
+                    v2 = self.expr(b.value, benv)
+                    op = {ast.BitAnd: 'Z.land', ast.BitOr: 'Z.lor', ast.BitXor: 'Z.lxor'}.get(type(b.op))
+                    if op is None or cur[1] != 'Z' or v2[1] != 'Z':
+                        raise TranslationError('augmented assignment ' + ast.unparse(b))
+                    v = ('(%s %s %s)' % (op, cur[0], v2[0]), 'Z')
+                else:
+                    raise TranslationError('statement ' + ast.unparse(b))
+                benv[tgt] = v
+                if tgt not in changed:
+                    changed.append(tgt)
+            out_env = dict(env)
+            text = None
+            binds = []
+            for tgt in changed:
+                if tgt not in env:
+                    raise TranslationError('conditional first assignment of ' + tgt)
+                if env[tgt][1] != benv[tgt][1]:
+                    raise TranslationError('type change of ' + tgt)
+                self.fresh += 1
+                name = '%s_%d' % (tgt.replace('.', '_'), self.fresh)
+                binds.append((name, '(if %s then %s else %s)' % (c, benv[tgt][0], env[tgt][0])))
+                out_env[tgt] = (name, env[tgt][1])
+            inner = self.block(rest, out_env, k)
+            for name, val in reversed(binds):
+                inner = '(let %s := %s in\n %s)' % (name, val, inner)
+            return inner
         if isinstance(s, ast.If):
             c = self.tb(self.expr(s.test, env))
             a = self.block(list(s.body) + rest, dict(env), k)
@@ -644,6 +683,42 @@ def gen_flagfuns(trees, menv):
     tr = FunTr('wcmatch', menv, [])
     env = {'self.flags': ('sflags', 'Z'), 'pathname': ('pathname', 'bool'), 'self.matchbase': ('matchbase', 'bool')}
     body = tr.block(stmts[:2], env, lambda e: e['flags'][0])
+    # Glob.__init__: the straight-line flag processing (from `self.nounique = ...` to `self.case_sensitive = ...`) preceded by
+    # `if epats is not None: flags = _wcparse.no_negate_flags(flags)`; result = the tuple of the assigned fields
+    gfn = find_func(trees['glob'], '__init__', 'Glob')
+    srcs = [ast.unparse(st) for st in gfn.body]
+    try:
+        i_ex = srcs.index('if epats is not None:\n    flags = _wcparse.no_negate_flags(flags)')
+        i_a = next(i for i, x in enumerate(srcs) if x.startswith('self.nounique = bool(flags & NOUNIQUE)'))
+        i_b = next(i for i, x in enumerate(srcs) if x.startswith('self.case_sensitive = _wcparse.get_case(self.flags)'))
+    except (ValueError, StopIteration):
+        raise TranslationError('Glob.__init__: the flag-processing statements were not found in the expected form')
+    if not (i_ex < i_a < i_b):
+        raise TranslationError('Glob.__init__: unexpected statement order')
+    gstmts = [gfn.body[i_ex]] + list(gfn.body[i_a:i_b + 1])
+    gfields = ['self.nounique', 'self.mark', 'self.scandotdir', 'self.negateall', 'self.nodir', 'self.pathlib', 'self.flags',
+               'self.negate_flags', 'self.raw_chars', 'self.dot', 'self.unix', 'self.negate', 'self.globstarlong', 'self.globstar',
+               'self.follow_links', 'self.braces', 'self.matchbase', 'self.case_sensitive']
+    assigned = []
+    for st in gstmts[1:]:
+        if isinstance(st, ast.Assign):
+            t = ast.unparse(st.targets[0])
+            if t.startswith('self.') and t not in assigned:
+                assigned.append(t)
+        elif isinstance(st, ast.AnnAssign):
+            raise TranslationError('Glob.__init__: annotated assignment')
+    if assigned != gfields:
+        raise TranslationError('Glob.__init__ assigns %r, expected %r' % (assigned, gfields))
+    gtr = FunTr('glob', menv, ['flags'], atoms={'epats is not None': ('has_exclude', 'bool')},
+               calls={'_flag_transform': ('glob_flag_transform P', ['Z'], 'Z'),
+                      '_wcparse.no_negate_flags': ('no_negate_flags P', ['Z'], 'Z'),
+                      '_wcparse.get_case': ('get_case P', ['Z'], 'bool')})
+    gtr.merge_ifs = True
+    gbody = gtr.block(gstmts, {'flags': ('flags', 'Z')}, lambda env: '(%s)' % ', '.join(env[f][0] for f in gfields))
+    out.append('(* glob.Glob.__init__, flag processing: (%s) *)' % ', '.join(f[5:] for f in gfields))
+    out.append('Definition glob_init_flags (P : platform) (has_exclude : bool) (flags : Z) :\n  bool * bool * bool * bool * bool * bool * Z * Z * bool * bool * bool * bool * bool * bool * bool * bool * bool * bool :=\n %s.' % gbody)
+    out.append('')
+
     out.append('(* wcmatch.WcMatch._compile_wildcard: the flags handed to _wcparse.compile *)')
     out.append('Definition wcmatch_wildcard_flags (sflags : Z) (matchbase pathname : bool) : Z :=\n %s.' % body)
     out.append('')
